@@ -513,6 +513,16 @@ ensures unmoved(*old(p), *final(p)), r.kind == self.kind, r.pos == self.pos,
     # hands out -- and an INDEX_EXPR wraps anything else (a call, a parenthesised expression, ...)
     REQ_NODE_START['indexed_identifier'] = '\n    lhs.kind == SyntaxKind::IDENTIFIER,        //@C05,C06:indexed-identifier-wraps-an-identifier\n   '
     REQ_NODE_START['index_expr'] = '\n    lhs.kind != SyntaxKind::IDENTIFIER,        //@C05,C06:index-expression-wraps-a-non-identifier\n   '
+    # C05 (the tree mirrors the derivation): each expression function completes the node of its own construct
+    NODE_KIND = {'cast_expr': ['CAST_EXPRESSION'], 'gphase_call_expr': ['G_PHASE_CALL_EXPR'], 'modified_gate_call_expr': ['MODIFIED_GATE_CALL_EXPR'],
+                 'gate_call_expr': ['GATE_CALL_EXPR'], 'measure_expression': ['MEASURE_EXPRESSION'], 'identifier': ['IDENTIFIER'],
+                 'hardware_qubit': ['HARDWARE_QUBIT'], 'tuple_expr': ['PAREN_EXPR', 'TUPLE_EXPR'], 'array_expr': ['ARRAY_EXPR'], 'block_expr': ['BLOCK_EXPR'],
+                 'return_expr': ['RETURN_EXPR'], 'box_expr': ['BOX_EXPR'], 'call_expr': ['CALL_EXPR', 'GATE_CALL_EXPR'], 'index_expr': ['INDEX_EXPR'],
+                 'indexed_identifier': ['INDEXED_IDENTIFIER']}
+    for _fn, _ks in NODE_KIND.items():
+        _e0, _r0 = ENS.get(_fn, ('', 'res'))
+        ENS[_fn] = (_e0 + '\n    (%s),        //@C05,C06:node-kind-of-its-construct' % ' || '.join('res.kind == SyntaxKind::%s' % k for k in _ks), 'res')
+    ENS['literal'] = (ENS['literal'][0] + '\n    res is Some ==> (res->Some_0.kind == SyntaxKind::LITERAL || res->Some_0.kind == SyntaxKind::TIMING_LITERAL),        //@C05,C06:node-kind-of-its-construct', 'res')
     LOOPS = {
         'source_file_contents': {1: 'invariant crate::parser::mono(*old(p), *p),\nensures crate::parser::mono(*old(p), *p), crate::parser::cur(p.st()) == SyntaxKind::EOF || (stop_on_r_curly && crate::parser::cur(p.st()) == SyntaxKind::R_CURLY),\ndecreases crate::parser::rem(p.st()),'}, 'switch_case_stmt': {1: 'invariant crate::parser::mono(*old(p), *p), p.pos > old(p).pos,\ndecreases crate::parser::rem(p.st()),'}, 'expr_block_statements': {1: DEC},
         'expr_bp': {1: 'invariant crate::parser::done_at(p.events@, lhs.pos as int), lhs.pos >= old(p).events@.len(), crate::parser::mono(*old(p), *p), bp >= 1, p.pos > old(p).pos,\ndecreases crate::parser::rem(p.st()),'},
